@@ -483,14 +483,16 @@ theorem id_float_six_decimals_witness : scalar .id (.f64 "0.1234567") [] = .ok (
 theorem single_to_list (s : Schema) (c : Cfg) (f : Nat) (et : Ty) (nn : Bool) (el : Sh) (v : Raw) (path : Path)
     (h : Single v = true) :
     unm s c (f + 1) (.list et nn) (.slice el) v path =
-      (match unm s c f et el v (path ++ ["0"]) with
+      (match unm s c (f + 1) et el v (path ++ ["0"]) with
        | .ok g => .ok (.slice [g])
        | .error e => .error e) := by
   have hn : v.isNil = false := by cases v <;> simp [Single] at h <;> rfl
-  simp only [unm, hn, unmSlice, coerceList_single v h, mapIdxE]
   have h0 : toString 0 = "0" := by decide
-  rw [h0]
-  cases unm s c f et el v (path ++ ["0"]) <;> simp
+  rw [unm_succ, unm_succ, unmSh_slice]
+  simp only [hn, unmSlice, coerceList_single v h, mapIdxE, h0]
+  simp only [Bool.false_and, Bool.false_eq_true, if_false]
+  generalize unmSh s _ el et v (path ++ ["0"]) = r
+  cases r <;> rfl
 
 /-- **Single value → list through variables.** gqlparser's validator wraps a single variable value into a typed
     slice (`[]json.Number{…}`, `[]string{…}`, `[]map[string]any{…}`, …); `graphql.CoerceList` — whose arms are
@@ -511,10 +513,13 @@ example : coerceList (.typed .strings [.str "a", .str "b"]) = [.str "a"] := by r
 theorem single_to_list_spec (s : Schema) (f : Nat) (et : Ty) (nn : Bool) (iv : Spec.IV) (path : Path)
     (hn : Spec.isNullIV iv = false) (hl : ∀ xs, iv ≠ .list xs) :
     Spec.coerce {} s (f + 1) (.list et nn) iv path =
-      (match Spec.coerce {} s f et iv (path ++ ["0"]) with
+      (match Spec.coerce {} s (f + 1) et iv (path ++ ["0"]) with
        | .ok c => .ok (.list [c])
        | .error e => .error e) := by
-  cases iv <;> simp [Spec.isNullIV] at hn <;> simp [Spec.coerce] <;> first | rfl | (exact absurd rfl (hl _))
+  simp only [Spec.coerce]
+  conv => lhs; unfold Spec.coerceTy
+  simp only [hn]
+  cases iv <;> first | (exact absurd rfl (hl _)) | simp
 
 /-! ## omitted vs explicit null vs value -/
 
@@ -647,13 +652,14 @@ theorem literal_over_int64_witness :
       = .call [.ptr (.int 18446744073709551615)] := by
   refine ⟨by rfl, by rfl⟩
 
-/-- **F02c witness** — a list of map-backed inputs given as a list crashes `unmarshalInput*`'s type assertion. -/
+/-- **F02c witness** — a list of map-backed inputs given as a list crashes `unmarshalInput*`'s type assertion
+    (the Go parameter is a single map); the specification's value is the list of the coerced objects. -/
 theorem list_of_map_inputs_witness :
     fieldStep exSchema {} [] (argV (.list (.named "M" true) false)) [("v", .list [.obj [("a", .int 1)]])] ["f"]
       = .error ["f"] "panic: interface conversion: not map[string]interface {}" ∧
-    Spec.fieldStep {} exSchema {} [] (argV (.list (.named "M" true) false)) [("v", .list [.obj [("a", .int 1)]])] ["f"]
-      ≠ .error ["f"] "panic: interface conversion: not map[string]interface {}" := by
-  refine ⟨by rfl, by decide⟩
+    Spec.coerce {} exSchema 5 (.list (.named "M" true) false) (.list [.obj [("a", .int 1)]]) ["f", "v"]
+      = .ok (.list [.obj [("a", .int 1)]]) := by
+  refine ⟨by rfl, by rfl⟩
 
 /-- **F02d witness** — a custom scalar bound to `graphql.ID`, float literal: six decimals (`fmt6`), where the
     specification (an ID is a string or an integer) has a coercion error. -/
